@@ -212,7 +212,9 @@ func hashValue(h *maphash.Hash, v reflect.Value) {
 			writeUint(uint64(len(keys)))
 			slices.SortFunc(keys, func(x, y reflect.Value) int { return cmp.Compare(x.String(), y.String()) })
 			for _, k := range keys {
-				write(k)
+				// A key is a property name: a string, whatever its type.
+				// (A json.Number key must not be hashed as a number; equalValue compares keys as strings.)
+				h.WriteString(k.String())
 				write(v.MapIndex(k))
 			}
 		// Ints, uints and floats handled in jsonNumber, at top of function.
